@@ -27,7 +27,10 @@ def _worker_init():
 
 
 def _verify_one(job):
-    key, timeout_ms, opaque = job
+    key, timeout_ms, opaque = job[:3]
+    only = job[3] if len(job) > 3 else None
+    if "ctx" not in _W:
+        _worker_init()
     from pyvc.verify import verify_function
     from pyvc.exec import Exec
     from contracts import common
@@ -37,7 +40,7 @@ def _verify_one(job):
     ex._ent_cache.clear()
     ex.opaque = set(opaque)
     try:
-        rep = verify_function(ex, key, timeout_ms)
+        rep = verify_function(ex, key, timeout_ms, only=only)
         for r in rep.results:
             r.meta.pop("z3model", None)
             r.meta.pop("args", None)
